@@ -170,6 +170,41 @@ Theorem C16_attr_start_literal_fixed : forall fails,
 Proof. exact attr_start_literal_fixed_ok. Qed.
 Print Assumptions C16_attr_start_literal_fixed.
 
+(* ---- the encoder's string-table elements: who owns the buffer (defects D23 and D22, repaired in /repo a4c55c1, dabbfe5) ---- *)
+(* old wbxml_encode_tag_literal / wbxml_encode_attr_start_literal: refused append -> name buffer freed twice; and on a
+   reset encoder of the pinned code (NULL list) the same without any allocation failure *)
+Theorem C16_encode_literal_refuted :
+  (exists k, h_bad (fst (fst (encode_literal true (heap_tbl (single k)) (Some a_table) false))) <> []) /\
+  h_bad (fst (fst (encode_literal true (heap_tbl nofail) None false))) <> [].
+Proof. exact encode_literal_refuted. Qed.
+Print Assumptions C16_encode_literal_refuted.
+Theorem C16_encode_literal_fixed : forall (fails : list bool) (already tbl_present : bool),
+  let tbl := (if tbl_present then Some a_table else None) : option (wlist selt) in
+  let '(h, tbl', st) := encode_literal false (heap_tbl fails) tbl already in
+  clean h /\ all_live h [1] = true /\
+  match st with
+  | ERR => leaked h [1] = [] /\ tbl' = tbl
+  | OK => match tbl' with Some l => leaked h (list_blocks selt_blocks l) = [] | None => False end
+  end.
+Proof. exact encode_literal_fixed_ok. Qed.
+Print Assumptions C16_encode_literal_fixed.
+(* old wbxml_fill_header: the public-id string already in the table (NO allocation failure) -> `pid` freed twice *)
+Theorem C16_fill_header_pid_refuted :
+  h_bad (fst (fst (fill_header_pid true (heap_tbl nofail) (Some a_table) true))) <> [] /\
+  (exists k, h_bad (fst (fst (fill_header_pid true (heap_tbl (single k)) (Some a_table) false))) <> []).
+Proof. exact fill_header_pid_refuted. Qed.
+Print Assumptions C16_fill_header_pid_refuted.
+Theorem C16_fill_header_pid_fixed : forall (fails : list bool) (already tbl_present : bool),
+  let tbl := (if tbl_present then Some a_table else None) : option (wlist selt) in
+  let '(h, tbl', st) := fill_header_pid false (heap_tbl fails) tbl already in
+  clean h /\ all_live h [1] = true /\
+  match st with
+  | ERR => leaked h [1] = [] /\ tbl' = tbl
+  | OK => match tbl' with Some l => leaked h (list_blocks selt_blocks l) = [] | None => False end
+  end.
+Proof. exact fill_header_pid_fixed_ok. Qed.
+Print Assumptions C16_fill_header_pid_fixed.
+
 (* ---- encoder: output buffer cannot be created (pinned code destroyed the encoder twice; repaired in /repo ab95676) ---- *)
 Theorem C16_encoder_output_failure_refuted : exists k, h_bad (fst (encoder_run true (heap0 (single k)))) <> [].
 Proof. exact encoder_output_failure_refuted. Qed.
